@@ -17,6 +17,7 @@ SIM = "acnportal.acnsim.simulator.Simulator."
 AE = "acnportal.acnsim.events.acndata_events."
 EVT = "acnportal.acnsim.events.event."
 EQ = "acnportal.acnsim.events.event_queue.EventQueue."
+AN = "acnportal.acnsim.analysis."
 CURR = "acnportal.acnsim.network.current.Current."
 TOU = "acnportal.signals.tariffs.tou_tariff.TimeOfUseTariff."
 SN = "acnportal.contrib.acnsim.network.stochastic_network.StochasticNetwork."
@@ -299,14 +300,24 @@ PLAN = {
     ),
     "C18": dict(
         level="other",
+        functions=[AN + f for f in ("aggregate_current", "aggregate_power", "total_energy_delivered", "total_energy_requested",
+                                    "proportion_of_energy_delivered", "proportion_of_demands_met", "energy_cost", "demand_charge")]
+                  + [NET + "constraint_current"],
         bounded=[dict(module="rt.netmon", fn="analysis_monitor", label="analysis functions against first-principles recomputation on completed simulations")],
-        text="BOUNDED so far: on completed seeded simulations (heterogeneous voltages, >= 2 three-phase constraints) aggregate_current / aggregate_power, "
-             "constraint_currents for random subsets and orderings of requested names (values must be that constraint's phase-aware currents under its "
-             "own name), energy totals, proportion of energy delivered, proportion of demands met for thresholds incl. exact remaining demands, NEMA "
-             "unbalance and datetimes_array are compared with first-principles recomputation from the recorded trajectory.",
-        note="no obligation is proved for C18 yet (numpy code); return_magnitudes is interpreted as implemented (False -> magnitudes), see DESIGN O-3",
-        explanation="bounded run-time contract monitor only (rt.netmon.analysis_monitor)",
-        technique="run-time contract monitor on the real functions (bounded stand-in); deductive obligations pending",
+        text="PROVED (all recorded trajectories, voltages, session histories, thresholds; no bound), each function against its first-principles "
+             "definition as a functional contract (result == definition): aggregate_current[t] = sum over stations of the recorded rate; "
+             "aggregate_power[t] = sum over stations of voltage x rate / 1000; total energy delivered / requested = sums over the session history; "
+             "proportion of energy delivered = their quotient; proportion of demands met = (number of sessions whose remaining demand is STRICTLY below "
+             "the threshold) / number of sessions; energy_cost = sum_k price(start + k x period) x aggregate power_k x period/60 with the prices being the "
+             "tariff lookups of C17; demand_charge = demand rate of the schedule in effect at the start x max_k aggregate power_k; and on the network "
+             "side constraint_current: the phase-aware weighted sums for the requested constraint names, returned in NETWORK order whatever order they "
+             "were requested in (order-preserving selection), for the requested periods. BOUNDED: constraint_currents (the name-keyed dictionary), "
+             "current_unbalance (NEMA), datetimes_array.",
+        note="numpy per A-LIB (sum(axis=0), dot, max as a canonical term with its two defining facts, Sum operator); sum() over a generator is the Sum "
+             "operator, sum(1 for ... if c) is the length of the order-preserving selection; ghost witness: the price vector returned by get_tariffs",
+        explanation="proved: eight analysis functions and constraint_current as functional contracts (pyvc/z3); bounded: the remaining three functions (rt.netmon.analysis_monitor)",
+        technique="contract-based deductive verification, functional contracts over a Sum / max theory (pyvc/z3) + run-time contract monitor (bounded)",
+        trusted=["A-LIB numpy as in the note; the tariff lookups through their C17 contracts"],
     ),
     "C20": dict(
         level="other",
